@@ -7,6 +7,7 @@ import (
 	"os"
 	"os/exec"
 	"path/filepath"
+	"runtime"
 	"sort"
 	"strings"
 	"sync"
@@ -74,7 +75,25 @@ func (o *Oblig) renderPart(goal Term, anc map[int]bool) string {
 	return sb.String()
 }
 
+// procSem bounds the number of solver processes running at once, so the checks do
+// not starve their own solvers (wall-clock timeouts start when a process starts).
+var procSem = make(chan struct{}, solverProcs())
+
+func solverProcs() int {
+	n := runtime.NumCPU()
+	if n < 4 {
+		n = 4
+	}
+	return n
+}
+
 func runSolver(ctx context.Context, s solverSpec, file string, timeoutS int) solveResult {
+	select {
+	case procSem <- struct{}{}:
+	case <-ctx.Done():
+		return solveResult{s.name, "timeout", "cancelled before start", 0}
+	}
+	defer func() { <-procSem }()
 	t0 := time.Now()
 	args := s.args(file, timeoutS)
 	cctx, cancel := context.WithTimeout(ctx, time.Duration(timeoutS+2)*time.Second)
@@ -168,6 +187,9 @@ func (v *Verifier) solve(o *Oblig, dir string, all bool) {
 			case "proved":
 				if o.Solver == "" {
 					o.Solver = solver
+				}
+				if i < len(o.Parts) {
+					o.Parts[i].Done = true // a later retry only repeats the undecided sub-goals
 				}
 				if len(parts) == 1 {
 					outs = append(outs, out)
@@ -409,6 +431,34 @@ func sanitizeFile(s string) string {
 		s = s[len(s)-150:]
 	}
 	return s
+}
+
+// retryTimeouts: an obligation none of whose sub-goals was refuted, and whose
+// undecided sub-goals only ran out of time, gets one more attempt with three times
+// the time limit and little parallelism. On a loaded machine this separates "the
+// solvers were starved" from "does not discharge"; it never turns a refutation
+// (sat) into a pass.
+func (v *Verifier) retryTimeouts(obs []*Oblig, dir string, all bool) {
+	var again []*Oblig
+	for _, o := range obs {
+		if o.Status == "unknown" && !o.Expected && !o.Canary && o.Kind != "contract" && o.ex != nil &&
+			strings.Contains(o.Output, "timeout") && !strings.Contains(o.Output, "=sat") && !strings.Contains(o.Output, "error") {
+			again = append(again, o)
+		}
+	}
+	if len(again) == 0 {
+		return
+	}
+	rv := *v
+	rv.Timeout = v.Timeout * 3
+	for _, o := range again {
+		o.FirstTry = o.Output
+		o.Status, o.Output = "", ""
+	}
+	rv.solveAll(again, dir, all, 3)
+	for _, o := range again {
+		o.Output = o.Output + " (second attempt with a " + fmt.Sprint(rv.Timeout) + " s limit; first attempt: " + o.FirstTry + ")"
+	}
 }
 
 func (v *Verifier) solveAll(obs []*Oblig, dir string, all bool, par int) {
